@@ -15,6 +15,14 @@ import vlib
 PROP = "C12"
 
 STRESS = [
+    # unions whose members have the same class name and differ only in generics (their order in the emitted Union[..])
+    "def first(x: Int) -> List[Int] raise [Exception] =>\n    if x < 0 then\n        raise Exception(\"negative\")\n    else\n        return [x]\ndef same(xs: {List[Int], List[Str]}) -> {List[Int], List[Str]} => xs\ndef a: {List[Int], List[Str]} := first(1) handle\n    err: Exception => [\"none\"]\ndef b: {Set[Str], Set[Int], Set[Bool]} := {1}\ndef c: {(Int, Str), (Str, Int), (Bool, Bool)} := (1, \"s\")\nprint(same(a))\n",
+    # a class argument, then a method directly followed by a field: where does the synthesised constructor go?
+    "class A(x: Int)\n    def m(self) -> Int => 1\n    def f: Int := 2\nclass B(def y: Int, z: Int := 3)\n    def n(self) -> Int => 1\n    def o(self) -> Int => 2\n    def g: Int := 4\n    def h: Int := 5\n",
+    # two parents that define the same method; a class with two methods of the same name
+    "class P1\n    def same(self) -> Int => 1\nclass P2\n    def same(self) -> Str => \"s\"\nclass C: P1, P2\ndef r: Int := C().same()\n",
+    "class D\n    def twice(self) -> Int => 1\n    def twice(self) -> Str => \"s\"\ndef r: Int := D().twice()\n",
+    "class P1\n    def v: Int := 1\nclass P2\n    def v: Str := \"s\"\nclass C: P1, P2\ndef r: Int := C().v\n",
     # a method at index i and a field at index i + 2 compete for the same place in the emitted class body
     "class T\n    def m0(self) -> Int => 0\n    def m1(self) -> Int => 1\n    def f2: Int := 2\n    def f3: Int := 3\n    def m4(self) -> Int => 4\n    def f5: Int := 5\n",
     # members of different kinds: the generator rebuilds the class body through a map
